@@ -72,6 +72,11 @@ class G:
     def int(self, lo, hi):
         return self.draw(st.integers(lo, hi))
 
+    def pool(self, t):
+        """Names available for new columns of type t (cfg pool_size shrinks it so that overwrites collide)."""
+        names = [n for n in S.POOLS[t] if n != "id"]
+        return names[: self.cfg.get("pool_size", len(names))]
+
     def subset(self, xs, lo=0, hi=None):
         xs = list(xs)
         hi = len(xs) if hi is None else min(hi, len(xs))
@@ -312,7 +317,7 @@ def gen_scalar_assignment(g: G, sch: Sch, forbid: set):
         rt, _ = S.expr_type(e, sch)
     except S.TypeErr:
         return None
-    names = [n for n in S.POOLS[rt] if n not in forbid and n != "id"]
+    names = [n for n in g.pool(rt) if n not in forbid and n != "id"]
     if not names:
         return None
     return [g.pick(names), e]
@@ -387,7 +392,7 @@ def step_window(g: G, sch: Sch):
                 continue
             arg = ["col", g.pick(cands)]
         ci = S.agg_result(S.AGG_WINDOW, fn, arg, sch, windowed=True)
-        names = [x for x in S.POOLS[ci["type"]] if x not in forbid and x != "id" and x not in [o[0] for o in ops]]
+        names = [x for x in g.pool(ci["type"]) if x not in forbid and x != "id" and x not in [o[0] for o in ops]]
         if arg is not None:
             pass
         if not names:
@@ -444,7 +449,7 @@ def step_ordered_window(g: G, sch: Sch):
                 extra = [["lit", g.pick([1, 2, -1])]]
         t = S.ORDERED_WINDOW[fn][1]
         rt = sch.cols[arg[1]]["type"] if t == "same" else t
-        names = [x for x in S.POOLS[rt] if x not in forbid and x != "id" and x not in [o[0] for o in ops]]
+        names = [x for x in g.pool(rt) if x not in forbid and x != "id" and x not in [o[0] for o in ops]]
         if not names:
             continue
         name = g.pick(names)
@@ -482,7 +487,7 @@ def step_project(g: G, sch: Sch):
                 continue
             arg = ["col", g.pick(cands)]
         ci = S.agg_result(S.AGG_PROJECT, fn, arg, sch, ungrouped_maybe_empty=(not gb))
-        names = [x for x in S.POOLS[ci["type"]] if x not in gb and x != "id" and x not in [o[0] for o in ops]]
+        names = [x for x in g.pool(ci["type"]) if x not in gb and x != "id" and x not in [o[0] for o in ops]]
         if not names:
             continue
         name = g.pick(names)
@@ -710,6 +715,11 @@ class Builder:
         self.tnames = ["t1", "t2", "t3"][:nt]
         for tn in self.tnames:
             tables[tn] = gen_table(g, tn, force_cols=cfg.get("force_cols"))
+        if cfg.get("given_tables"):
+            # caller-supplied table specs (e.g. "the output of pipeline a") come first: growth starts there
+            given = cfg["given_tables"]
+            tables = {**{k: v for k, v in given.items()}, **({} if cfg.get("only_given") else tables)}
+            self.tnames = list(given.keys()) + ([] if cfg.get("only_given") else self.tnames)
         self.case = {"tables": tables, "nodes": [], "root": 0, "expr_mode": "text"}
         self.schemas: Dict[int, Sch] = {}
         self.heads = [self.add({"op": "table", "name": tn}) for tn in self.tnames]
